@@ -43,6 +43,7 @@ package controllers
 // reprocessAll (abstracted mode): Services are handed to the handler with those that already hold addresses first
 //@ func (*ServiceReconciler).reprocessAll
 //@   abstract
+//@   modifies *
 //@   call sort.Slice with less(a, b) := len(a.Status.LoadBalancer.Ingress) > len(b.Status.LoadBalancer.Ingress)
 //@   requires r != nil
 //@   requires [errVar] errRetry != nil
@@ -62,9 +63,19 @@ package controllers
 //@ func epSlicesForService
 //@   trusted
 //@   modifies nothing
+// filterByLoadBalancerClass: a Service is left alone iff its loadBalancerClass differs from the one this instance serves
+// (a Service without class belongs to the instance without class); deletions are never filtered
 //@ func filterByLoadBalancerClass
-//@   trusted
+//@   ensures result == (service != nil && ite(service.Spec.LoadBalancerClass == nil, loadBalancerClass != "", *service.Spec.LoadBalancerClass != loadBalancerClass))
 //@   modifies nothing
+// the reload pseudo-request and the dispatch of Reconcile
+//@ func isReloadReq
+//@   ensures result == (req.Name == "reload" && req.Namespace == "metallbreload")
+//@   modifies nothing
+//@ func (*ServiceReconciler).Reconcile
+//@   abstract
+//@   assert before reconcileService: [single] !(req.Name == "reload" && req.Namespace == "metallbreload")
+//@   assert before reprocessAll: [reload] req.Name == "reload" && req.Namespace == "metallbreload"
 //@ func dumpResource
 //@   trusted
 //@   modifies nothing
@@ -72,6 +83,7 @@ package controllers
 // reload is requested only when the handler asked for one
 //@ func (*ServiceReconciler).reconcileService
 //@   abstract
+//@   modifies *
 //@   assert before Handler: [afterInitialLoad] r.initialLoadPerformed
 //@   assert before forceReload: [onRequest] res == SyncStateReprocessAll
 //@   exit assert [errorIsRetried] res == SyncStateError ==> result1 != nil
